@@ -122,6 +122,10 @@ enum Pre {
     StaleTmp,
     /// Destination is a symbolic link to a longer previous object file.
     Symlink,
+    /// Destination is a symbolic link whose target does not exist (yet).
+    DanglingLink,
+    /// Destination absent, its file name is not valid UTF-8.
+    OddName,
 }
 
 impl Pre {
@@ -131,6 +135,8 @@ impl Pre {
             Pre::Sentinel => "present",
             Pre::StaleTmp => "stale_tmp",
             Pre::Symlink => "symlink",
+            Pre::DanglingLink => "dangling_symlink",
+            Pre::OddName => "non_utf8_name",
         }
     }
     fn from_name(s: &str) -> Pre {
@@ -138,6 +144,8 @@ impl Pre {
             "present" => Pre::Sentinel,
             "stale_tmp" => Pre::StaleTmp,
             "symlink" => Pre::Symlink,
+            "dangling_symlink" => Pre::DanglingLink,
+            "non_utf8_name" => Pre::OddName,
             _ => Pre::Absent,
         }
     }
@@ -220,6 +228,10 @@ fn compile_once(setup: &Setup, fault: &Fault) -> (Option<(String, String)>, Proc
             std::fs::create_dir_all(&d).expect("dir dest");
             (d, false)
         }
+        _ if setup.pre == Pre::OddName => {
+            use std::os::unix::ffi::OsStrExt;
+            (out_dir.join(std::ffi::OsStr::from_bytes(b"pr\xffg\xfe.lc3")), false)
+        }
         _ => (out_dir.join("prog.lc3"), false),
     };
     let before: Option<Vec<u8>> = match (&setup.pre, fault) {
@@ -242,9 +254,13 @@ fn compile_once(setup: &Setup, fault: &Fault) -> (Option<(String, String)>, Proc
             std::os::unix::fs::symlink(&target, &dest).expect("symlink");
             Some(old)
         }
-        (Pre::Absent, _) => None,
+        (Pre::DanglingLink, _) => {
+            std::os::unix::fs::symlink(out_dir.join("not-there-yet.bin"), &dest).expect("dangling symlink");
+            None
+        }
+        (Pre::Absent, _) | (Pre::OddName, _) => None,
     };
-    let mut args = vec!["compile".to_string(), src.display().to_string(), dest.display().to_string()];
+    let mut args: Vec<std::ffi::OsString> = vec!["compile".into(), src.clone().into_os_string(), dest.clone().into_os_string()];
     if setup.stack {
         args.push("-f".into());
         args.push("stack".into());
@@ -397,11 +413,13 @@ fn build(rng: &mut Rng) -> (Program, bool, Pre, &'static str) {
         plant_failure(&mut program, k, width);
         family = "assembly_failure_at_k";
     }
-    let pre = match rng.below(8) {
-        0..=2 => Pre::Sentinel,
-        3..=5 => Pre::Absent,
-        6 => Pre::StaleTmp,
-        _ => Pre::Symlink,
+    let pre = match rng.below(12) {
+        0..=3 => Pre::Sentinel,
+        4..=7 => Pre::Absent,
+        8 => Pre::StaleTmp,
+        9 => Pre::Symlink,
+        10 => Pre::DanglingLink,
+        _ => Pre::OddName,
     };
     (program, stack, pre, family)
 }
@@ -519,6 +537,8 @@ impl Check for C08 {
             Pre::Absent => "probe:destination_absent",
             Pre::StaleTmp => "probe:stale_temporary_file_present",
             Pre::Symlink => "probe:destination_is_symlink",
+            Pre::DanglingLink => "probe:destination_is_dangling_symlink",
+            Pre::OddName => "probe:destination_name_not_utf8",
         });
         report.nontrivial = faults.len() >= 2 || matches!(scenario.get("faults"), Some(J::Arr(_)));
         let shape = format!(
